@@ -68,6 +68,16 @@ def _work(args):
                 out["info"] = {"function": key, "file": repo.path_of(module), "line": fn.lineno, "source_sha1": repo.source_hash(module, fn), "kind": "real function"}
             else:
                 out["info"] = {"function": key, "kind": "lemma over callee contracts (sidecar)", "file": "contracts/", "line": 0}
+        # digest of every property-carrying formula of this contract (deterministic: names are reset per contract)
+        import hashlib as _hl
+
+        hd = _hl.sha1()
+        for d in res:
+            if not d.vc.canary and not d.vc.cover:
+                hd.update(d.vc.name.encode())
+                for f in list(d.vc.pc) + [d.vc.goal]:
+                    hd.update(str(f.hash()).encode())  # z3's structural hash (names included); sexpr() of these DAGs is too slow
+        out["vc_digest"] = hd.hexdigest()[:16] if res else None
         native = natives.get(key)
         for d in res:
             ob = {"name": d.vc.name, "function": key, "clause": d.vc.clause, "status": d.status, "backend": d.backend, "ms": round(d.ms, 1), "reason": d.reason, "canary": d.vc.canary, "kind": d.vc.kind, "model": None}
@@ -126,19 +136,23 @@ def run_t1(modules: list[str], keys: list[str] | None, prop: str, ctx, timeout_m
         # the other properties it serves only reference it (evidence: proved_under_other_checks)
         keys = [k for k, c in reg.contracts.items() if c.properties and c.properties[0] == prop and not c.trusted]
     baseline = set()
+    baseline_digest: dict = {}
     if os.path.exists(BASELINE_PATH):
-        baseline = set(json.load(open(BASELINE_PATH)).get("fully_discharged", []))
+        _b = json.load(open(BASELINE_PATH))
+        baseline = set(_b.get("fully_discharged", []))
+        baseline_digest = _b.get("vc_digest", {})
     res = PropResult(prop=prop, level="proof")
     tasks = [(modules, k, ctx.repo, timeout_ms, ctx.seed, n_cross if ctx.tier == "quick" else n_cross * 10) for k in keys]
     mpctx = mp.get_context("spawn")
-    with mpctx.Pool(min(ctx.jobs, max(1, len(tasks)))) as pool:
+    with mpctx.Pool(min(ctx.jobs, max(1, len(tasks))), maxtasksperchild=1) as pool:  # one fresh process (fresh z3 context) per contract: same formulas, same solver run, every time
         outs = pool.map(_work, tasks, chunksize=1)
     # budgets under load: a contract that was fully discharged on the baseline tree and now has UNDECIDED obligations is
     # verified once more on its own, after the pool has drained, with a 3x budget, before anything is reported
     for i, o in enumerate(outs):
         if o["key"] in baseline and not o["error"] and 1 <= sum(1 for x in o["obligations"] if x["status"] != HELD and not x["canary"]) <= 2 and any(x["status"] == UNDECIDED and not x["canary"] for x in o["obligations"]):
             t = tasks[i]
-            outs[i] = _work((t[0], t[1], t[2], timeout_ms * 3, t[4], 0))
+            with mpctx.Pool(1, maxtasksperchild=1) as p2:
+                outs[i] = p2.apply(_work, ((t[0], t[1], t[2], timeout_ms * 3, t[4], 0),))
             outs[i]["cross"] = o["cross"]
             outs[i]["second_attempt"] = True
     fully = []
@@ -200,6 +214,12 @@ def run_t1(modules: list[str], keys: list[str] | None, prop: str, ctx, timeout_m
             sig = f"{prop}:T1:{x['name'].split('@')[0].split('~')[0]}"
             if x["status"] == VIOLATED and v is not None and v["reproduced"]:
                 res.violations.append(Violation(signature=sig, what=f"obligation {x['name']} refuted; counterexample reproduces on the real function: {v['observed']}", input={"contract": key, "args": v["input"]}, obligation=x["name"], contract=x["clause"], observed=v["observed"], solver_output=x["model"], tier="T1"))
+            elif key in baseline and x["status"] == UNDECIDED and o.get("vc_digest") and baseline_digest.get(key) == o["vc_digest"]:
+                # the formulas of this contract are, character by character, the ones that were discharged on the baseline
+                # tree (same code, same contract, same encoding): the solver running out of budget on them says nothing
+                # about the code.  Recorded as undecided, never reported.
+                res.obligations[-1].reason = (x["reason"] or "") + " [formula identical to the one discharged on the baseline tree: solver budget, not a change of the code]"
+                res.extra.setdefault("budget_exhausted_on_unchanged_formulas", []).append(x["name"])
             elif key in baseline:
                 why = "refuted by the solver" if x["status"] == VIOLATED else f"no longer discharged ({x['reason']})"
                 res.violations.append(Violation(signature=sig, what=f"obligation {x['name']} ({x['clause'][:120]}) was discharged on the baseline tree and is now {why}", input={"contract": key, "args": v["input"] if v else None}, obligation=x["name"], contract=x["clause"], observed=(v or {}).get("observed"), solver_output=x["model"] or x["reason"], failing_input_found=False, tier="T1"))
@@ -214,6 +234,7 @@ def run_t1(modules: list[str], keys: list[str] | None, prop: str, ctx, timeout_m
         f"{k} (verified by ./check {c.properties[0]})" for k, c in reg.contracts.items() if prop in c.properties[1:] and not c.trusted
     )
     res.extra["t1_fully_discharged"] = fully
+    res.extra["t1_vc_digest"] = {o["key"]: o.get("vc_digest") for o in outs if o["key"] in fully and o.get("vc_digest")}
     res.extra["t1_baseline_fully_discharged"] = sorted(baseline & set(keys))
     return res
 
